@@ -96,6 +96,11 @@ def spec_best(mets, n):
     return head.index(min(head)) + 1
 
 
+def kept_mets(case):
+    """the metric series the kept `best` checkpoint is chosen by: the training metrics when the update is asked to (best_is_train)"""
+    return case["train"] if case.get("bit") else case["mets"]
+
+
 def spec_weight(e):
     return [e * (e + 1) / 2.0, -float(e)]
 
@@ -130,7 +135,7 @@ def spec_may_refuse(case, n):
     """updating to epoch n may legitimately be refused (ValueError): only last and best are kept, some
     name lacks the epoch field, and epoch n is not the best epoch itself (writing it would overwrite
     the best checkpoint)"""
-    return case["keep"] and not all(fmt_unique(case["fmt"])) and spec_best(case["mets"], n) != n
+    return case["keep"] and not all(fmt_unique(case["fmt"])) and spec_best(kept_mets(case), n) != n
 
 
 # ---------------------------------------------------------------------------------------------
@@ -330,7 +335,8 @@ def run_script(d, case, crash=None, on_update=None):
         out["events"][e] = inj.events
         with patched(inj):
             try:
-                cont = ctrl.update_for_epoch(model, opt, float(mets[e - 1]), float(mets[e - 1]))
+                train = case.get("train", mets)
+                cont = ctrl.update_for_epoch(model, opt, float(train[e - 1]), float(mets[e - 1]), **({"best_is_train": True} if case.get("bit") else {}))
             except ValueError as ex:
                 if "would overwrite" in str(ex):
                     out["refused"] = e
@@ -412,7 +418,7 @@ def loadable_checks(d, case, ref, n_want=None):
     try:
         ctrl = _controller(d, case)
         n = ctrl.get_last_epoch()
-        best = ctrl.get_best_epoch()
+        best = ctrl.get_best_epoch(train_met=True) if case.get("bit") else ctrl.get_best_epoch()
         epochs = sorted(ctrl.cache_hist)
     except Exception as ex:
         return ["restart-failed: a fresh controller cannot read the history (%s)" % _exc(ex)], None
@@ -420,8 +426,8 @@ def loadable_checks(d, case, ref, n_want=None):
         msgs.append("hist-not-prefix: recorded epochs %s are not 1..%d" % (epochs[1:], n))
     if n_want is not None and n != n_want:
         msgs.append("hist-length: %d epochs recorded, expected %d" % (n, n_want))
-    if best != spec_best(mets, n):
-        msgs.append("best-epoch: controller says %d, earliest minimum of %s is %d" % (best, mets[:n], spec_best(mets, n)))
+    if best != spec_best(kept_mets(case), n):
+        msgs.append("best-epoch: controller says %d, earliest minimum of %s is %d" % (best, kept_mets(case)[:n], spec_best(kept_mets(case), n)))
         return msgs, n
     # last recorded epoch: model and optimizer
     m, o = _mk_model_opt()
@@ -438,7 +444,10 @@ def loadable_checks(d, case, ref, n_want=None):
     if need_m:
         m, o = _mk_model_opt()
         try:
-            ctrl.load_model_for_epoch(m)  # default: best
+            if case.get("bit"):
+                ctrl.load_model_for_epoch(m, best)  # the kept best is the one by training metric (the default would pick by validation metric)
+            else:
+                ctrl.load_model_for_epoch(m)  # default: best
             pb = _model_problem(m, best, ref)
             if pb:
                 msgs.append("best-wrong-params: best epoch %d (load_model_for_epoch): %s" % (best, pb))
@@ -479,7 +488,7 @@ def _disp(name):
 
 def dir_exact(d, case, n):
     """keep_last_and_best_only: the state directory lists exactly the files of last(n) and best(n)"""
-    want = spec_names(case["fmt"], {n, spec_best(case["mets"], n)})
+    want = spec_names(case["fmt"], {n, spec_best(kept_mets(case), n)})
     have = set(_disp(x) for x in _listing(d))
     if have != want:
         return "dir-not-exact: after completed update %d the state directory holds extra=%s missing=%s (exactly %s expected)" % (
@@ -501,7 +510,7 @@ _REF_CACHE = {}
 
 def _key(case):
     s = case.get("setting")
-    return (tuple(case["mets"]), bool(case["keep"]), case["fmt"], s if isinstance(s, str) else repr(sorted((s or {}).items())))
+    return (tuple(case["mets"]), bool(case["keep"]), case["fmt"], s if isinstance(s, str) else repr(sorted((s or {}).items())), bool(case.get("bit")), tuple(case.get("train", ())))
 
 
 def reference(case):
@@ -691,6 +700,11 @@ def cases_keep(ctx):
                 for s in settings:
                     for mets in _histories(full, two):
                         yield {"mets": mets, "keep": keep, "fmt": fmt, "setting": s}
+    # the kept `best` chosen by the TRAINING metric (update_for_epoch(..., best_is_train=True)); series whose two optima differ
+    for keep in (True, False):
+        for fmt in ("epoch", "const"):
+            for train, mets in (([0.5, 2.0, 3.0, 0.25, 1.5], [3.0, 1.0, 2.0, 2.5, 0.5]), ([1.0, 0.5, 2.0], [0.5, 1.0, 0.25]), ([2.0, 1.0], [1.0, 2.0])):
+                yield {"mets": mets, "train": train, "bit": True, "keep": keep, "fmt": fmt, "setting": "plain"}
     if not ctx.quick:
         for c in _random_cases(ctx, N_RANDOM):
             yield c
